@@ -11,7 +11,7 @@ from vlib import fixchecks
 
 PROP = "C14"
 RULESETS = "layout layout_alt".split()
-KINDS = "fixture mutant gen".split()
+KINDS = "fixture mutant gen cmt edge".split()
 WHAT = "fixing with layout rules changed the code tokens or the comments"
 
 
@@ -21,7 +21,7 @@ def run(ctx, prove=True):
     if prove:
         ctx.prove(["SqlfluffVerif.Props.C14"], ["Props/C14.lean"])
     ctx.partial += ["the rules' edits are not modelled one by one: the theorem composes edits that satisfy the per-edit condition, the end-to-end spec is evaluated on real runs"]
-    fixchecks.run_universe(ctx, PROP, RULESETS, ctx.budget(160, 10 ** 9), WHAT, KINDS)
+    fixchecks.run_universe(ctx, PROP, RULESETS, ctx.budget(300, 10 ** 9), WHAT, KINDS, focus=("cmt",))
 
 
 def search(ctx):
